@@ -91,6 +91,26 @@ fn io_instances(rng: &mut Rng) -> String {
     s
 }
 
+/// One task plus several programs that are not attached to any task (background programs), all folding their number into a
+/// shared global: the result depends on the order in which the background programs run.
+fn background_programs(rng: &mut Rng) -> String {
+    let n = 3 + rng.usize(5);
+    let mut names: Vec<String> = (0..n).map(|i| format!("{}{}", ["Bg", "worker_", "Zeta", "alpha", "M", "q_", "Pump"][i % 7], i)).collect();
+    rng.shuffle(&mut names);
+    let mut s = String::from("PROGRAM Ticker\nVAR_EXTERNAL acc : DINT; END_VAR\nacc := acc + DINT#1;\nEND_PROGRAM\n");
+    for (i, nm) in names.iter().enumerate() {
+        s += &format!("PROGRAM {nm}\nVAR_EXTERNAL acc : DINT; END_VAR\nVAR seen : DINT; END_VAR\nseen := acc;\nacc := (acc * DINT#31 + DINT#{}) MOD DINT#1000003;\nEND_PROGRAM\n", i + 2);
+    }
+    s += "CONFIGURATION Conf\nVAR_GLOBAL acc : DINT; END_VAR\nTASK Fast (INTERVAL := T#1ms, PRIORITY := 1);\nPROGRAM T1 WITH Fast : Ticker;\n";
+    let mut order: Vec<usize> = (0..names.len()).collect();
+    rng.shuffle(&mut order);
+    for i in order {
+        s += &format!("PROGRAM I_{} : {};\n", names[i], names[i]);
+    }
+    s += "END_CONFIGURATION\n";
+    s
+}
+
 fn job_json(text: &str, trace: &[CycleIn]) -> J {
     json!({"text": text, "trace": trace.iter().map(|c| json!({"dt": c.dt_ns, "in": c.inputs.iter().map(|(n, t, v)| json!([n, t.name(), match v { Sv::I(x) => x.to_string(), Sv::F(f) => format!("f{:016x}", f.to_bits()) }])).collect::<Vec<_>>()})).collect::<Vec<_>>()})
 }
@@ -191,11 +211,15 @@ pub fn run(sh: &mut Shard) {
         let mut jobs = Vec::new();
         for k in 0..12u64 {
             let mut g = rng.fork(round * 100 + k);
-            let (text, trace) = match k % 5 {
+            let (text, trace) = match k % 6 {
                 0 => {
                     let t = many_names(&mut g);
                     let tr: Vec<CycleIn> = (0..6).map(|_| CycleIn { dt_ns: *g.pick(&[0, 1_000_000, 3_000_000, 500_000]), inputs: vec![("trigger".into(), Ty::Bool, Sv::I(g.below(2) as i128))] }).collect();
                     (t, tr)
+                }
+                3 => {
+                    let t = background_programs(&mut g);
+                    (t, (0..6).map(|_| CycleIn { dt_ns: 1_000_000, inputs: vec![] }).collect())
                 }
                 2 => {
                     let t = io_instances(&mut g);
@@ -289,6 +313,9 @@ fn batch(sh: &mut Shard, work: &std::path::Path, exe: &std::path::Path, nproc: u
                 }
                 if text.contains("FUNCTION_BLOCK Drv0") {
                     sh.count("jobs_with_sibling_fb_io_bindings", 1);
+                }
+                if text.contains("PROGRAM Ticker") {
+                    sh.count("jobs_with_several_background_programs", 1);
                 }
                 sh.nontrivial(&fnv(text));
             } else {
